@@ -21,7 +21,7 @@ VAL = {'F': 0, 'T': 1, 'U': 2}
 def generate(cfg, rd, timeout):
     out = os.path.join(rd, 'gen-%s.txt' % cfg)
     md = os.path.join(rd, 'md-' + cfg)
-    cmd = ['java', '-XX:+UseParallelGC', '-Xmx6g', '-Xss64m', '-cp', vlib.TLA_CP, 'tlc2.TLC', '-workers', '1', '-noGenerateSpecTE',
+    cmd = ['java', '-XX:+UseParallelGC', '-Xmx6g', '-Xss64m', '-cp', vlib.TLA_CP, 'tlc2.TLC', '-workers', '4', '-noGenerateSpecTE',
            '-metadir', md, '-config', cfg, 'ReifyGen.tla']
     with open(out, 'w') as fh:
         try:
